@@ -14,6 +14,7 @@ from vf.gen import rng_for, daily_weather
 from vf.oracle import criteria as CR
 
 ID = "C10"
+TECHNIQUE = 'runtime monitoring: boundary monitor on the real data classes (all entry points): reported disqualification set vs an independent exact evaluation of the published criteria; hook on SufficiencyCriteria.model_post_init records the derived counters'
 LEVEL = "exploration"
 NEEDS_NUMBA = False
 CASE_TIMEOUT = 1800
